@@ -18,5 +18,11 @@ theorem generated_checked_frame_length_eq_model (len max : Nat) :
 theorem generated_frame_constants :
     FRAME_READ_CHUNK_SIZE = Codec.chunkSize ∧ DEFAULT_MAX_INBOUND_FRAME_SIZE = Codec.defaultMaxFrame := by
   decide
+
+/-- write side: `encode_network_message` appends the 8-byte big-endian length and the payload,
+i.e. `Codec.encodeFrame` (for a payload whose length fits `u64`, else the real code panics). -/
+theorem generated_encode_network_message_eq_model (msg buf : List UInt8) (h : msg.length < 2 ^ 64) :
+    encode_network_message msg buf = buf ++ Codec.encodeFrame msg := by
+  simp [encode_network_message, Codec.encodeFrame, Rust.unwrap, Rust.tryFrom, h, List.append_assoc]
 end XlateTie
 end C19
